@@ -36,6 +36,27 @@ CHECKS.update({
    "TLC proves (bounded) that the update recurrences equal whole-sample statistics for every order and chunking and that the stopping machine stops only when converged or at the limit; every emitted sequence/parameter set is replayed into RunningStatistics/RunningCovariance/RunningCovarianceMatrix/estimate_from_repeats (well- and ill-conditioned maps) and compared with the model's exact rationals; a naive sum-of-squares accumulator is shown to be rejected on every run.",
    "Floating-point accuracy is a tolerance check (4 n eps max|x| for means, 8(n eps AD + eps|cov|) for second moments); exact ties skipped."),
 })
+_CROP_NOTE = "Shuffles are forced through random.seed/random.shuffle; fresh Crop objects stand for fresh processes in the quick tier; bounds as listed in the evidence."
+CHECKS.update({
+ "C04": ("Crop.tla", "DESIGN.md §4",
+   "TLA+ model of the crop life-cycle (sow order vs reaper replay order, batch cutting, result chain) checked by TLC; emitted sow/grow/reload/re-sow/reap histories replayed on real crops",
+   "TLC checks ReapEqualsDirect on every reaping transition over grids/case lists x batchsize/num_batches x shuffle placement (constructor, sow call) and histories of grow(i)/Crop.grow(i)/Crop.grow(set)/grow_missing/reload/re-sow; every emitted history is replayed on a real crop in a temp directory and the reaped nested result compared position by position; the pinned sow_cases ordering (F3) is reproduced as a TLC counterexample on every run.", _CROP_NOTE),
+ "C06": ("Crop.tla + Sweep.tla", "DESIGN.md §4",
+   "same TLA+ crop model with farmer kinds and store delivery; replayed reaps compared with the model's value map, the farmer's last result, the data file and a direct run of the same runner",
+   "For Runner/Harvester/Sampler crops every replayed reap is compared with the spec's value map at every point/row, must be recorded as last_ds/last_df, must leave the harvester file holding exactly the delivered settings, and a complete reap must be identical (Dataset) / equal (DataFrame) to a direct run of the same runner (whose labelling C03 validates against Sweep.tla).", _CROP_NOTE),
+ "C07": ("Crop.tla", "DESIGN.md §4",
+   "TLA+ model of choose_batch_settings and the Sower's cutting, Partition invariant checked by TLC for every (N, batchsize | num_batches); every emitted partition compared with real batch files",
+   "TLC checks the Partition invariant for every N<=24 (thorough 48) x every batchsize in 1..N+1 / num_batches in 1..N+2, for grids and case lists, shuffled or not; each emitted partition is compared with the batch files a real sow writes (as sequences of settings with exactly the direct run's keyword arguments) and with the numbers the crop reports before and after reload.", _CROP_NOTE),
+ "C08": ("Crop.tla", "DESIGN.md §4",
+   "TLA+ model of progress (ProgressIsTruth, OnlyOwnResult, ResowKeepsResults, FailedGrowWritesNothing) checked by TLC; simulated operation histories replayed with all four progress queries and directory listings compared after every call",
+   "TLC checks the progress invariants and frame conditions over all reachable states of crops with 1..4 (8) batches; simulated histories (sow, re-sow, grow i, grow subset, grow_missing, failing function, repair, delete, corrupt, check_bad, reload) are replayed on real crops and num_sown_batches, num_results, missing_results(), is_ready_to_reap(), batches/ and results/ listings and the outcome of each call are compared after every step.", _CROP_NOTE),
+ "C09": ("Crop.tla", "DESIGN.md §4",
+   "TLA+ model of partial reaps (placeholder sizing, chain alignment) checked by TLC over all non-empty proper subsets; replayed into reap(allow_incomplete=True) for raw / Dataset / DataFrame crops",
+   "TLC checks PartialReapWorks / ReapEqualsDirect / RefusedUntouched for every (N, batching) with and without remainder x every non-empty proper subset of finished batches (B<=5, thorough 7) x clean_up; each is replayed for number/array/tuple/str/bool results, Runner (Dataset) and Sampler (DataFrame) crops, incl. grow-missing-then-full-reap continuations; the pinned placeholder sizing (F4) is reproduced as a TLC counterexample on every run.", _CROP_NOTE),
+ "C12": ("Crop.tla", "DESIGN.md §4",
+   "TLA+ model of reap outcomes and clean-up (DeleteOnlyAfterDelivery, FailedReapKeepsCrop) checked by TLC over farmer kind x failure cause x clean_up x allow_incomplete with corrected retries; replayed with environment-provoked failures",
+   "TLC checks that the crop directory is deleted only on a successful reap after delivery and is untouched by refused/failed reaps, for none/Runner/Harvester/Sampler crops with failures at result loading, dataset construction, harvester merge and save; histories incl. the corrected retry are replayed on real crops (failures provoked through the environment) and the directory, outcome, values and data file compared after every call; the pinned Sampler clean-up order (F8) is reproduced as a TLC counterexample.", _CROP_NOTE),
+})
 NOT_YET = {}
 
 def main():
